@@ -1,5 +1,6 @@
 import AC.Drv.Proto
 import AC.Decomp
+import AC.Gen.ProgramFns
 /-! driver handler for C09: `c09 <f|s|r|h> <x> <K> <T> <terms d:e,..> <dict> <unchanged>` -/
 namespace AC.Drv
 open P P.Bits
@@ -34,6 +35,11 @@ def handleC09 (f : List String) : Res :=
       let model := decompose m x K T
       let r : Res := {}
       let r := cmp "terms" (showTerms model) terms r
+      -- `FixedWindow.Decompose` as TRANSLATED from dict.go (x >= 1, K >= 1; K = 0 does not terminate in Go)
+      let r := if m == .fixed && x ≥ 1 && K ≥ 1 then
+          cmp "translated-fixed-window" (match AC.Gen.Program.dictFixedWindowDecompose K (x : Int) with
+            | some l => showList (fun (t : AC.GoPrim.GTerm) => s!"{t.D}:{t.E}") l | none => "panic") terms r
+        else r
       let r := cmp "dictionary" (showInts (dictionary model)) dict r
       let r := specIf "target-unmodified" (unch == "1") r
       let r := specIf "sum-exact" (value impl == x) r
